@@ -193,6 +193,12 @@ class FaultPlan:
             x = BrokenPipeError(errno.EPIPE, f'injected EPIPE at {site}')
             x._vt_injected = True
             return x
+        if kind == 'kbi':
+            # Ctrl-C arriving while this call runs (only generated for the
+            # serial executor, where every call runs on the user's thread)
+            x = KeyboardInterrupt(f'injected Ctrl-C at {site}')
+            x._vt_injected = True
+            return x
         if kind in ('valueerror', 'hard:valueerror'):
             x = ValueError(f'injected ValueError at {site}')
             x._vt_injected = True
